@@ -370,11 +370,11 @@ Proof.
     split; [exact Hs|]. intros [H9 H0]. unfold is_lead_ws. rewrite Hs, H9, H0. reflexivity.
 Qed.
 
-Lemma drop_sp_ascii : forall t, drop_while is_ascii_ws (drop_while is_sp t) = drop_while is_ascii_ws t.
+Lemma drop_sp_ascii : forall t, trim_sp true (drop_while is_sp t) = trim_sp true t.
 Proof.
   induction t as [|c r IH]; [reflexivity|]. cbn [drop_while]. destruct (is_sp c) eqn:S.
   - unfold is_sp in S. assert (is_ascii_ws c = true) by (unfold is_ascii_ws; rewrite S; reflexivity).
-    rewrite H. exact IH.
+    cbn [trim_sp]. rewrite H. exact IH.
   - reflexivity.
 Qed.
 
